@@ -27,5 +27,19 @@ CLAIMED['C05'] = dict(
     technique="TLA+ transcription of the external sort checked by TLC against a stable-sort definition; "
               "spec->code case replay over all strategies; code->spec trace validation by TLC",
     design="3/C05")
+CLAIMED['C06'] = dict(
+    text="TLC checks MergeJoin.tla - the merge loops of iterjoin/iterantijoin/iterlookupjoin with every exit and both "
+         "flush blocks as separate actions - against the relational definitions of RelJoin.tla (every result row exactly "
+         "once, ascending key groups, no crash) for all pairs of key columns up to the bound x 6 operators; the model of "
+         "the loops as found at the pinned commit is kept as a sensitivity test (TLC must report the None-key data loss "
+         "and the raw-key crash on it). Every TLC-generated case (rectangular, ragged, lkey!=rkey, compound keys, "
+         "missing values; crossjoin) is replayed on the real join functions under value profiles and option variants "
+         "(natural key, prefixes, presorted, buffersize, cache); Hypothesis table pairs (<= 25 rows per side) are recorded "
+         "as pass events of row pairs and validated by TLC (JoinTrace).",
+    note="Small-scope bound (<= 4 rows per side in the loop model, <= 3 rectangular / 2 ragged rows in generated cases); "
+         "sort() is used through the real views and covered by C05; row order inside a key group is model-level (DRIFT only).",
+    technique="TLA+ transcription of the merge loops checked by TLC against relational definitions; spec->code case "
+              "replay; code->spec trace validation by TLC",
+    design="3/C06")
 
 NOT_APPLICABLE = {}
